@@ -27,6 +27,12 @@ PROP = [  # (keyword in commit subject, property, signature of the finding it re
  ("add_movie spliced", "C05", "sink:new_video_pic/shape_name"), ("graphic-frame name was spliced", "C05", "sink:new_graphicFrame/name"),
  ("add_ole_object spliced", "C05", "sink:new_ole_object_graphicFrame/progId,name"), ("chart number formats were spliced", "C05", "sink:xmlwriter/number_format (8 sites); C07 number-format-quote-breaks-date-axis"),
  ("came back as blanks", "C05", "attr-ws-normalised:* (9 attribute sinks)"), ("came back as a line feed", "C05", "text-cr-normalised:* (9 text sinks); C07 cr-in-string-becomes-lf"),
+ ("ColorFormat.theme_color", "C03", "color.theme_color|required-attr|a:schemeClr/@val"), ("rejected Font.name", "C03", "font.name|required-attr|a:latin/@typeface"),
+ ("line_spacing / space_before / space_after", "C03", "paragraph.*|required-attr|a:spcPct/@val, a:spcPts/@val"), ("data-label position", "C03", "dlabels.position / point_label.position|required-attr|c:dLblPos/@val"),
+ ("Marker.style", "C03", "marker.style|required-attr|c:symbol/@val"), ("Legend.horz_offset", "C03", "legend.horz_offset|required-attr|c:x/@val"),
+ ("begin_connect / end_connect", "C03", "connect|required-attr|a:stCxn/@idx, a:endCxn/@idx"), ("rejected number_format assignment", "C03", "dlabels/ticklabels.number_format|required-attr|c:numFmt/@formatCode"),
+ ("number_format_is_linked created", "C03", "*.number_format_is_linked|required-attr|c:numFmt/@formatCode"), ("non-str to TextFrame.text", "C03", "*.text|missing-child|p:txBody, a:txBody, c:rich"),
+ ("non-str hyperlink address", "C03", "hyperlink.address|package-broken"),
  ("EMF images", "C15", "emf-stored-as-wmf"), ("TIFF without resolution", "C15", "tiff-without-resolution-sized-at-1dpi"),
 ]
 k = json.load(open(os.path.join(V, "known_findings.json")))
